@@ -300,18 +300,152 @@ fn law_jobs(seed: u64) -> Vec<Job> {
     jobs
 }
 
+/// Larger populations: inclusion of every individual at k/n, co-inclusion of individual pairs at
+/// k(k-1)/(n(n-1)), and the winner-rank law C(r-1,k-1)/C(n,k) for distinct keys (ranks pooled into
+/// at most 12 classes), so that a fast path that only acts beyond some population or tournament
+/// size cannot hide behind the small-scope enumeration above.
+fn large_law_jobs(seed: u64) -> Vec<Job> {
+    let mut jobs = vec![];
+    let configs: [(usize, usize); 14] = [(9, 4), (12, 2), (12, 7), (16, 3), (17, 15), (31, 2), (32, 5), (33, 20), (64, 2), (64, 7), (65, 40), (100, 3), (150, 10), (300, 37)];
+    for (ci, (n, k)) in configs.into_iter().enumerate() {
+        // distinct keys in a seed-dependent order: key = rank (0 = worst)
+        let mut ranks: Vec<usize> = (0..n).collect();
+        for i in (1..n).rev() {
+            let j = (splitmix(seed ^ 0x1A26E ^ ((ci as u64) << 32) ^ i as u64) % (i as u64 + 1)) as usize;
+            ranks.swap(i, j);
+        }
+        let name = format!("Tournament({k}) over {n} distinct keys");
+        jobs.push(Job {
+            name: name.clone(),
+            run: Box::new(move |trials, seed| {
+                let keys: Vec<i64> = ranks.iter().map(|r| *r as i64).collect();
+                let pop = pop_of(&keys);
+                let t = Tournament::new(NonZeroUsize::new(k).unwrap_or(NonZeroUsize::MIN));
+                let mut rng = StdRng::seed_from_u64(seed);
+                let trials = (trials / 4).max(50_000);
+                let mut included = vec![0u64; n];
+                let mut exact = 0u64;
+                // pairs (i, i+1 mod n) and (i, i + n/2 mod n)
+                let mut pair_adj = vec![0u64; n];
+                let mut pair_far = vec![0u64; n];
+                let mut rank_wins = vec![0u64; n];
+                for _ in 0..trials {
+                    let (id, s) = draw(&t, &pop, k, &mut rng)?;
+                    rank_wins[ranks[id as usize]] += 1;
+                    if s.len() == k {
+                        exact += 1;
+                        let mut inset = vec![false; n];
+                        for i in &s {
+                            inset[*i as usize] = true;
+                            included[*i as usize] += 1;
+                        }
+                        for i in 0..n {
+                            if inset[i] && inset[(i + 1) % n] {
+                                pair_adj[i] += 1;
+                            }
+                            if inset[i] && inset[(i + n / 2) % n] {
+                                pair_far[i] += 1;
+                            }
+                        }
+                    }
+                }
+                let mut stats = vec![];
+                // the comparison log shows all k entrants only when every entrant takes part in a comparison (k >= 2);
+                // if an implementation compares more than k individuals the subset statistics are skipped
+                if exact == trials && k >= 2 {
+                    let p_in = k as f64 / n as f64;
+                    let p_pair = (k * (k - 1)) as f64 / (n * (n - 1)) as f64;
+                    for i in 0..n {
+                        stats.push(Stat::new("Tournament/subset-not-uniform", format!("{name}: individual {i} takes part"), included[i], trials, p_in));
+                    }
+                    for i in 0..n {
+                        if n > 2 {
+                            stats.push(Stat::new("Tournament/subset-not-uniform", format!("{name}: individuals {i} and {} both take part", (i + 1) % n), pair_adj[i], trials, p_pair));
+                        }
+                        if n > 3 && n / 2 != 1 && (i + n / 2) % n != i {
+                            stats.push(Stat::new("Tournament/subset-not-uniform", format!("{name}: individuals {i} and {} both take part", (i + n / 2) % n), pair_far[i], trials, p_pair));
+                        }
+                    }
+                }
+                // winner rank law, ranks pooled from the top into <= 12 classes of comparable mass
+                let c = binom(n as u64, k as u64);
+                let law: Vec<f64> = (0..n).map(|r| binom(r as u64, k as u64 - 1) / c).collect(); // rank r (0-based) wins: C(r, k-1)/C(n,k)
+                let mut lo = n;
+                let mut class = 0;
+                while lo > 0 && class < 12 {
+                    let mut hi = lo;
+                    let mut mass = 0.0;
+                    let mut wins = 0u64;
+                    while lo > 0 && (mass < 1.0 / 12.0 || class == 11) {
+                        lo -= 1;
+                        mass += law[lo];
+                        wins += rank_wins[lo];
+                    }
+                    stats.push(Stat::new("Tournament/winner-law", format!("{name}: winner has rank in {lo}..{hi} (0 = worst)"), wins, trials, mass.min(1.0)));
+                    hi = lo;
+                    let _ = hi;
+                    class += 1;
+                }
+                Ok(stats)
+            }),
+        });
+    }
+    jobs
+}
+
+/// The named constructors are the sizes they say.
+fn constructor_check(ctx: &mut Ctx) {
+    let cases: Vec<(&str, Tournament, usize)> = vec![
+        ("Tournament::binary()", Tournament::binary(), 2),
+        ("Tournament::of_size::<1>()", Tournament::of_size::<1>(), 1),
+        ("Tournament::of_size::<2>()", Tournament::of_size::<2>(), 2),
+        ("Tournament::of_size::<3>()", Tournament::of_size::<3>(), 3),
+        ("Tournament::of_size::<7>()", Tournament::of_size::<7>(), 7),
+    ];
+    let seed = ctx.seed;
+    ctx.run_cases("named_constructors", cases.iter().map(|(n, _, k)| ((*n).to_string(), *k)).collect::<Vec<_>>(), |(name, k), probe| {
+        let t = &cases.iter().find(|(n, _, _)| n == name).expect("listed").1;
+        let k = *k;
+        probe.nontrivial = true;
+        // exactly k-1 individuals: must be refused; k individuals: everyone takes part and the best wins
+        let small = pop_of(&(0..k as i64 - 1).collect::<Vec<_>>());
+        let mut rng = StdRng::seed_from_u64(seed ^ k as u64);
+        take_compared();
+        ensure!(guarded(|| t.select(&small, &mut rng).is_err()).unwrap_or(false), "Tournament/constructor-size", "{name} accepted a population of {} individuals", k - 1);
+        let exact = pop_of(&(0..k as i64).rev().collect::<Vec<_>>());
+        for _ in 0..50 {
+            let (id, s) = draw(t, &exact, k, &mut rng)?;
+            ensure!(s.len() == k && exact[id as usize].key == k as i64 - 1, "Tournament/constructor-size", "{name} over exactly {k} individuals: sample {s:?}, winner key {}", exact[id as usize].key);
+        }
+        // over a larger population it behaves as Tournament::new(k): k distinct entrants
+        let big = pop_of(&(0..40).collect::<Vec<_>>());
+        for _ in 0..200 {
+            let (_, s) = draw(t, &big, k, &mut rng)?;
+            ensure!(k == 1 || s.len() == k, "Tournament/constructor-size", "{name} compared {} individuals of 40, expected {k}", s.len());
+        }
+        Ok(())
+    });
+}
+
 pub fn run(ctx: &mut Ctx) {
-    ctx.rule = "invariants: generated populations (0..200 individuals ordered by a key, with ties), all tournament sizes incl. n and n+1, generated random stream; the sampled subset of each tournament is recovered from the ids the individuals' Ord::cmp is asked to compare. laws: for every n <= 7 and k <= n (distinct keys, and a tie-laden variant) seeded draws compared with the uniform law 1/C(n,k) over k-subsets and the winner law obtained by enumerating all k-subsets. non-trivial = n >= 3 with >= 2 distinct keys and 1 < k < n (invariants); each (statistic, configuration) with 0 < p < 1 (laws)".into();
+    ctx.rule = "invariants: generated populations (0..200 individuals ordered by a key, with ties), all tournament sizes incl. n and n+1, generated random stream; the sampled subset of each tournament is recovered from the ids the individuals' Ord::cmp is asked to compare. laws: for every n <= 7 and k <= n (distinct keys, and a tie-laden variant) seeded draws compared with the uniform law 1/C(n,k) over k-subsets and the winner law obtained by enumerating all k-subsets; for 14 larger configurations (n up to 300, k up to 40) the inclusion rate k/n of every individual, the co-inclusion rate of neighbouring and opposite pairs and the pooled winner-rank law C(r,k-1)/C(n,k); the named constructors binary() / of_size::<N>() are the sizes they say. non-trivial = n >= 3 with >= 2 distinct keys and 1 < k < n (invariants); each (statistic, configuration) with 0 < p < 1 (laws)".into();
     ctx.assumptions.push("on ties any maximal individual is accepted; if an implementation compares more than k individuals the subset law is skipped and only the winner law is used".into());
     let (n_cases, trials) = ctx.tier.pick((400_000u32, 1_000_000u64), (6_000_000, 10_000_000));
     ctx.run_prop("invariants", n_cases, || strategy(200), oracle);
     run_jobs(ctx, "tournament_laws", law_jobs(ctx.seed), trials);
+    run_jobs(ctx, "tournament_laws_large", large_law_jobs(ctx.seed), trials);
+    constructor_check(ctx);
 }
 
 pub fn replay(ctx: &mut Ctx, sub: &str, case: &Value) {
     if sub == "tournament_laws" {
         let trials = ctx.tier.pick(1_000_000u64, 10_000_000);
         run_jobs(ctx, "tournament_laws", law_jobs(ctx.seed), trials);
+    } else if sub == "tournament_laws_large" {
+        let trials = ctx.tier.pick(1_000_000u64, 10_000_000);
+        run_jobs(ctx, "tournament_laws_large", large_law_jobs(ctx.seed), trials);
+    } else if sub == "named_constructors" {
+        constructor_check(ctx);
     } else {
         ctx.replay_case::<Case, _>(sub, case, oracle);
     }
